@@ -18,8 +18,8 @@ EXTEND = {
                 "mithril-signer/src/services/epoch_service.rs", "mithril-client/src/message.rs",
                 "mithril-aggregator/src/database/repository/signer_registration_store.rs"],
     "rule": "c06b: case = one history (6-14 ops after the initial registrations; 8-22 thorough) over 5 parties / 8 real BLS keys / "
-            "epochs around e: store writes (own key, second key, another party's key; stakes 0, 5, 1..40, 2^62; one history in ten "
-            "with totals at and beyond 2^64), prunes, inform_epoch(e / e+1 / 0 / repeated), update_next_signers_with_stake, "
+            "epochs around e: store writes (own key, second key, another party's key; stakes 0, 5, 1..40, 2^62; one history in eight "
+            "with stakes of 2^63-1: totals at and beyond 2^64), prunes, inform_epoch(e / e+1 / 0 / repeated), update_next_signers_with_stake, "
             "precompute_epoch_data; 110 (700) histories, every step observed. c06c: 44 (220) sets of 1..10 KES-certified signers x "
             "{as built, reversed, by party, by stake, 3 (6) shuffles} x {direct, JSON text, JSON value} + empty list, signer listed "
             "twice, party id not the pool, two party ids swapped, total zero, total overflow, one signer less, one stake changed. "
